@@ -20,7 +20,13 @@ W64 = 2 ** 64
 # ---------------------------------------------------------------------------
 def grid_points(rng, n, family=None):
     """n strictly increasing rationals; families: unit, irregular, offset±1000, tiny"""
-    family = family or rng.choice(['unit', 'irregular', 'irregular', 'off+', 'off-', 'tiny'])
+    family = family or rng.choice(['unit', 'irregular', 'irregular', 'off+', 'off-', 'tiny', 'sym'])
+    if family == 'sym':
+        # contains an interval whose midpoint is exactly 0 and a grid point at 0 (boundary values of the midpoint expansion)
+        base = [Fr(-7, 2), Fr(-2), Fr(-1), Fr(1), Fr(3, 2), Fr(4), Fr(9, 2), Fr(6), Fr(13, 2), Fr(8), Fr(9), Fr(10)]
+        if n <= 3:
+            return base[2:2 + n]
+        return base[1:1 + n]
     if family == 'unit':
         return [Fr(i) for i in range(n)]
     if family == 'tiny':
@@ -419,7 +425,7 @@ def gen_C04(seed, tier):
     cases = []
     orders = [0, 1, 2, 3] if tier == 'quick' else [0, 1, 2, 3, 4]
     maxpos = 5 if tier == 'quick' else 6
-    for fam in ['unit', 'irregular', 'off+', 'off-']:
+    for fam in ['unit', 'irregular', 'off+', 'off-', 'sym']:
         for o in orders:
             tag = fam.replace('+', 'p').replace('-', 'm')
             c = Case(f"C04_{tag}_{o}")
@@ -1255,7 +1261,8 @@ PROPS = {
              "intersection on a distinct-but-equal grid object, ==/!=); every triple for associativity up to 3 (quick) / 5 "
              "(thorough) points; conversions and checked access at indices 0..n+2, 2^63-1..2^63+1, 2^64-3..2^64-1; "
              "non-trivial = distinct binary window operations and conversion/accessor calls",
-        variants={'quick': ['plain'], 'thorough': ['plain', 'asanchecks']},
+        variants={'quick': ['plain'], 'thorough': ['plain', 'asanchecks']}, scan='ast',
+        trusted_extra=["gen/ast2coq.py: translator from clang 14's JSON AST of Support<double> to coq/gen/SupportGen.v (integer-only member functions, size_t as N with explicit wrap); Proofs_SupportGen proves the generated definitions equal to the hand-written model on every run"],
     ),
 }
 
